@@ -59,6 +59,21 @@ TEXT = {
   "note": "Observational, not raw, equality (tombstones of created keys remain in the raw frontier — witness example); "
           "pool and consensus-statistics clauses are correspondence only.",
   "technique": "Lean 4 proof (invariant over reachable manager states) + differential correspondence on op sequences",
+ "C05": {
+  "text": "Kernel-checked theorems over Go-faithful models: SelectProducers for any sorting algorithm and any rand.Perm "
+          "(exactly NodeCount slots, members only, input-order irrelevance for distinct names, no pillar twice when enough "
+          "pillars), ticker (ToTime(ToTick t) <= t < next, monotone, round trip), schedule (slots tile the tick, producer "
+          "lookup answers exactly at slot starts with the i-th elected pillar), GetMomentumBeforeTime = last momentum with "
+          "ts < t (estimate loop + sort.Search, total for whole-second instants), proof momentum determined by the chain "
+          "prefix, cache = recomputation, and momentum_verify_sound for the verifier whose check ORDER is read from the Go "
+          "AST on every run; all tied to the tree by three differential streams (election, ticker, mverify on a real mock "
+          "chain with every single-field mutation and wrongly signed momentums) with model-free monitors.",
+  "design_ref": "§3 C05",
+  "note": "rand.Perm / sort.Sort / hashes / ed25519 / momentum VM are parameters or oracle values with explicit hypotheses; "
+          "pillar weights (ComputePillarDelegations) are taken from the real code; cross-node schedule equality after "
+          "restart/reorg is by the cold-vs-cached comparison on one node plus the prefix theorem, not by a multi-node run.",
+  "technique": "Lean 4 proof (induction, permutation reasoning) + regenerated facts (constants, verifier check order from "
+               "the AST) + differential correspondence + model-free monitors",
  },
  "C12": {
   "text": "Kernel-checked theorems over the Go-faithful model of getTargetByDifficulty / greaterDifficulty / "
